@@ -5,7 +5,7 @@ cd /dev/shm/gs1 && rm -f out/* && ./engine.test -test.run TestWorlds -gsim.mode=
 python3 -c "
 import json,sys
 s=json.load(open('/dev/shm/gs1/out/summary-$P-w0.json'))
-for v in s['viol']: print(v['index'], v['signature']); print('   ', v['detail'][:${DET:-700}].replace('\n','\n    ')); print()
+for v in (s['viol'] or []): print(v['index'], v['signature']); print('   ', v['detail'][:${DET:-700}].replace('\n','\n    ')); print()
 print('worlds',s['worlds'],'wall',round(s['wall_s'],2),'tool',s['tool'])
 print('probes',s['probes'])
 print('faults',s['faults'])"
